@@ -23,7 +23,7 @@ class MainConfig(Contract):
     name = 'main'
     tu = 'src/main.cpp'
     tu_filter = 'main'
-    aux_tus = [('src/main.cpp', 'vfps::')]
+    aux_tus = [('src/main.cpp', 'vfps::'), ('src/IO/ProgramOptions.cpp', 'vfps::')]      # option accessors defined out of line are inlined from their own file
     params = ['argc', 'argv']
     tags = {'C03', 'C04', 'C05', 'C06', 'C17'}
     ghosts = {'g': 'int', 'g2': 'int'}
@@ -515,10 +515,10 @@ class MainWiring(Contract):
     name = 'main'
     tu = 'src/main.cpp'
     tu_filter = 'main'
-    tags = {'C03', 'C04', 'C05', 'C06', 'C08', 'C10', 'C12', 'C19'}
+    tags = {'C03', 'C04', 'C05', 'C06', 'C08', 'C10', 'C12', 'C18', 'C19'}
 
     def replay(self, o, model, pid):
-        sc = {'C10': ['records'], 'C12': ['cadence'], 'C19': ['rfkicks', 'cadence']}.get(pid)
+        sc = {'C10': ['records'], 'C12': ['cadence'], 'C18': ['cadence'], 'C19': ['rfkicks', 'cadence']}.get(pid)
         return {'driver': 'main', 'scenarios': sc} if sc else None
 
     # class -> list of (label, expected variable per leading constructor argument, tags)
@@ -569,14 +569,17 @@ class MainWiring(Contract):
         ex.default_tags = set(self.tags)
         declared = set(x.get('name') for x in _walk(fn) if x.get('kind') == 'VarDecl')
         sites = {}
+        site_nodes = {}
         for n in _walk(body(fn)):
             if n.get('kind') in ('CXXConstructExpr', 'CXXTemporaryObjectExpr'):
                 t = n.get('type', {}).get('qualType', '')
                 for cls in self.EXPECT:
                     if t.replace('vfps::', '') == cls:
-                        args_ = [self._argname(a) for a in n.get('inner', []) if a.get('kind') != 'CXXDefaultArgExpr']
+                        nodes_ = [a for a in n.get('inner', []) if a.get('kind') != 'CXXDefaultArgExpr']
+                        args_ = [self._argname(a) for a in nodes_]
                         if len(args_) >= self.MIN_ARGS.get(cls, 0):
                             sites.setdefault(cls, []).append(args_)
+                            site_nodes[id(args_)] = nodes_
             if n.get('kind') == 'CallExpr':
                 c_ = n['inner'][0]
                 while c_.get('kind') in ('ImplicitCastExpr', 'ParenExpr'):
@@ -587,24 +590,15 @@ class MainWiring(Contract):
                         if t.replace('vfps::', '').replace(' ', '') in (f'std::unique_ptr<{cls}>', f'std::shared_ptr<{cls}>', f'unique_ptr<{cls}>', f'shared_ptr<{cls}>',
                                                                        f'typenamestd::_MakeUniq<{cls}>::__single_object', f'typename_MakeUniq<{cls}>::__single_object') or \
                            (cls in t and ('_MakeUniq' in t or 'unique_ptr' in t or 'shared_ptr' in t) and 'Dynamic' + cls not in t):
-                            sites.setdefault(cls, []).append([self._argname(a) for a in n['inner'][1:] if a.get('kind') != 'CXXDefaultArgExpr'])
+                            nodes_ = [a for a in n['inner'][1:] if a.get('kind') != 'CXXDefaultArgExpr']
+                            args_ = [self._argname(a) for a in nodes_]
+                            sites.setdefault(cls, []).append(args_)
+                            site_nodes[id(args_)] = nodes_
                             break
         obls = []
 
         def ob(label, ok, note, tags):
             obls.append(Obligation(f'main#wiring.{label}', set(tags), [], z3.BoolVal(bool(ok)), 'postcondition', None, note))
-        for cls, variants in self.EXPECT.items():
-            found = [f_ for f_ in sites.get(cls, []) if len(f_) >= self.MIN_ARGS.get(cls, 0)]
-            if len(found) != len(variants):
-                raise ExtractionError(f'main: {len(found)} construction sites of {cls}, contract knows {len(variants)}: {found}'[:600])
-            for label, want, tags in variants:
-                for w in want:
-                    if isinstance(w, str) and w not in declared:
-                        raise ExtractionError(f'main: variable {w} (expected at the construction of {cls}) does not exist any more')
-                # match each expected variant to the site that agrees with it in the most positions
-                best = max(found, key=lambda f_: sum(1 for a_, w_ in zip(f_, want) if a_ == w_))
-                diffs = [(i_, a_, w_) for i_, (a_, w_) in enumerate(zip(best + [None] * len(want), want)) if a_ != w_]
-                ob(label, not diffs, f'{cls}({", ".join(map(str, want))}, ...): ' + ('as expected' if not diffs else 'differs at ' + '; '.join(f'argument {i_ + 1}: {a_} instead of {w_}' for i_, a_, w_ in diffs)), tags)
         const_locals = {x.get('name'): x for x in _walk(fn) if x.get('kind') == 'VarDecl' and x.get('inner') and 'const' in x.get('type', {}).get('qualType', '')}
 
         def through_const_locals(a, want_):
@@ -622,6 +616,35 @@ class MainWiring(Contract):
                     return nm if want_get is None or nm != want_var else (nm, getters[0] if getters else None)
                 seen.add(nm)
                 node = const_locals[nm]['inner'][-1]
+        for cls, variants in self.EXPECT.items():
+            found = [f_ for f_ in sites.get(cls, []) if len(f_) >= self.MIN_ARGS.get(cls, 0)]
+            if len(found) != len(variants):
+                raise ExtractionError(f'main: {len(found)} construction sites of {cls}, contract knows {len(variants)}: {found}'[:600])
+            for label, want, tags in variants:
+                for w in want:
+                    if isinstance(w, str) and w not in declared:
+                        raise ExtractionError(f'main: variable {w} (expected at the construction of {cls}) does not exist any more')
+                # match each expected variant to the site that agrees with it in the most positions
+                best = max(found, key=lambda f_: sum(1 for a_, w_ in zip(f_, want) if a_ == w_))
+                # a value kept in a const local (`const auto np = trackme.size();`) still is that variable's value
+                nodes_ = site_nodes.get(id(best))
+                if nodes_ is not None:
+                    best = [(through_const_locals(nd_, want[i_]) if i_ < len(want) and isinstance(want[i_], (str, tuple)) and best[i_] != want[i_] else best[i_]) for i_, nd_ in enumerate(nodes_)]
+                diffs = [(i_, a_, w_) for i_, (a_, w_) in enumerate(zip(best + [None] * len(want), want)) if a_ != w_]
+                ob(label, not diffs, f'{cls}({", ".join(map(str, want))}, ...): ' + ('as expected' if not diffs else 'differs at ' + '; '.join(f'argument {i_ + 1}: {a_} instead of {w_}' for i_, a_, w_ in diffs)), tags)
+        # ---- the field that computes the CSR spectrum is an object of its own (C12/C18: ElectricField::updateCSR uses the start of
+        # the padded profile buffer as scratch; on the field that also pads and transforms the bunch train for the wake potential
+        # what it leaves there enters the next wake potential -- and it runs only when a record is written)
+        recv = []
+        for n in _walk(body(fn)):
+            if n.get('kind') == 'CXXMemberCallExpr' and n['inner'][0].get('kind') == 'MemberExpr' and n['inner'][0].get('name') == 'updateCSR':
+                refs = [x.get('referencedDecl') or {} for x in _walk(n['inner'][0]) if x.get('kind') == 'DeclRefExpr']
+                recv += [(r_.get('name'), (r_.get('type') or {}).get('qualType', '')) for r_ in refs if r_.get('kind') in ('VarDecl', 'ParmVarDecl')]
+        if not recv:
+            raise ExtractionError('main: no call of ElectricField::updateCSR found')
+        own = all(t_.replace('vfps::', '').strip() == 'ElectricField' for _, t_ in recv)
+        ob('csr_field_is_an_object_of_its_own', own and set(nm for nm, _ in recv) == {'rdtn_field'},
+           f'updateCSR is called on {sorted(set(recv))}: expected the variable rdtn_field of class type ElectricField (not a reference or pointer that may alias the wake field)', {'C12', 'C18', 'C10'})
         for fname, (label, want, tags) in self.EXPECT_CALLS.items():
             found = []
             for n in _walk(body(fn)):
